@@ -822,3 +822,27 @@ package internal
 //@   pure
 //@   ensures result == np(s, len(s))                                         # name: equals-normal-form
 //@   loop 0 invariant 0 <= i && i <= len(s) && sbc[&b] == np(s, i)
+
+// ---- C03: composition of the store key from the (net/url-normalised) URL ---------------------------
+// host / port split of an authority (copied from net/url: numeric port after the last colon, one pair of
+// brackets removed); trusted naming of what splitHostPort computes
+//@ spec func hostPartOf(hp string) string
+//@ spec func portPartOf(hp string) string
+//@ func splitHostPort
+//@   trusted
+//@   pure
+//@   ensures host == hostPartOf(hostPort) && port == portPartOf(hostPort)
+//@ spec func effPortS(scheme string, hp string) string = ite(portPartOf(hp) == "", ite(scheme == "http", "80", ite(scheme == "https", "443", "")), portPartOf(hp))
+//@ spec func defPortS(scheme string) string = ite(scheme == "http", "80", ite(scheme == "https", "443", ""))
+// lower-cased host, in brackets when it contains a colon (IPv6 literal), followed by ":port" unless the port is the scheme's default
+//@ spec func hostKeyS(hp string) string = ite(containsS(lower(hostPartOf(hp)), ":"), "[" + lower(hostPartOf(hp)) + "]", lower(hostPartOf(hp)))
+//@ spec func authorityS(scheme string, hp string) string = ite(effPortS(scheme, hp) != "" && effPortS(scheme, hp) != defPortS(scheme), hostKeyS(hp) + ":" + effPortS(scheme, hp), hostKeyS(hp))
+//@ spec func pathOrSlash(scheme string, ep string) string = ite(ep == "" && (scheme == "http" || scheme == "https"), "/", ep)
+//@ spec func npAll(s string) string = np(s, len(s))
+//@ spec func composeKey(n *url.URL) string = ite(n.RawQuery != "", n.Scheme + "://" + authorityS(n.Scheme, n.Host) + npAll(pathOrSlash(n.Scheme, escPathV(n.Path, n.RawPath))) + ("?" + npAll(n.RawQuery)), n.Scheme + "://" + authorityS(n.Scheme, n.Host) + npAll(pathOrSlash(n.Scheme, escPathV(n.Path, n.RawPath))))
+//@ func makeURLKey
+//@   property C03 C09 C10
+//@   requires u != nil
+//@   assigns lastResolved
+//@   ensures u.Opaque != "" ==> result == u.Opaque                                                      # name: opaque-is-the-key
+//@   ensures u.Opaque == "" ==> result == composeKey(u) || (fresh(lastResolved) && result == composeKey(lastResolved))     # name: key-is-scheme-authority-path-query
